@@ -118,6 +118,10 @@ class RtlReader(object):
                 if len(msgbin) >= 5:
                     nbits = 112 if msgbin[0] == 1 else 56  # DF >= 16 are long
                     msgbin = msgbin[:nbits]
+                    if len(msgbin) < nbits:
+                        # cut short (end of the buffer, faded pulses): bin2hex
+                        # would right-align the bits into another frame
+                        msgbin = []
 
                 if len(msgbin) > 0:
                     msghex = pms.bin2hex("".join([str(i) for i in msgbin]))
